@@ -8,5 +8,11 @@ trap 'rm -f "$BIN"' EXIT
 OVLDIR="$(mktemp -d /tmp/verif-build-XXXXXX)"
 trap 'rm -f "$BIN"; rm -rf "$OVLDIR"' EXIT
 OVLJSON="$(go1.26.8 run ./cmd/mkoverlay "$OVLDIR")" || exit 2
+if [ "$(jq -r .property "$1" 2>/dev/null)" = "C11" ]; then
+  # C11 runs inside testing/synctest bubbles: its replay lives in the test binary
+  go1.26.8 test -vet=off -tags verif -overlay "$OVLJSON" -c -o "$BIN" ./checks/c11/ || exit 2
+  VERIF_REPLAY="$(readlink -f "$1")" "$BIN" -test.count=1 2>&1 | grep -v '^PASS$\|^ok '
+  exit "${PIPESTATUS[0]}"
+fi
 go1.26.8 build -tags verif -overlay "$OVLJSON" -o "$BIN" ./cmd/verifx || exit 2
 "$BIN" replay "$1"
